@@ -33,6 +33,9 @@ type list interface {
 	Values() []int
 	Size() int
 	Empty() bool
+	KeptNow() [][]int // the slices returned by Values() so far, as they are now
+	Scribble()        // overwrite every cell of a fresh Values() result with a never-stored value
+	Snapshot() []int  // current contents, for the generators (not a recorded call)
 }
 type linked interface {
 	Append(values ...int)
@@ -48,12 +51,12 @@ type kind struct {
 }
 
 var kinds = []kind{
-	{name: "arraylist", coq: "KArray", safe: false, mk: func() list { return arraylist.New[int]() }},
-	{name: "arraylist.Safe", coq: "KArray", safe: true, mk: func() list { return arraylist.NewSafe[int]() }},
-	{name: "doublylinkedlist", coq: "KDList", safe: false, mk: func() list { return doublylinkedlist.New[int]() }},
-	{name: "doublylinkedlist.Safe", coq: "KDList", safe: true, mk: func() list { return doublylinkedlist.NewSafe[int]() }},
-	{name: "singlylinkedlist", coq: "KSList", safe: false, mk: func() list { return singlylinkedlist.New[int]() }},
-	{name: "singlylinkedlist.Safe", coq: "KSList", safe: true, mk: func() list { return singlylinkedlist.NewSafe[int]() }},
+	{name: "arraylist", coq: "KArray", safe: false, mk: func() list { return wrapA[int]{&wrap[int]{l: arraylist.New[int](), c: idCodec}} }},
+	{name: "arraylist.Safe", coq: "KArray", safe: true, mk: func() list { return wrapA[int]{&wrap[int]{l: arraylist.NewSafe[int](), c: idCodec}} }},
+	{name: "doublylinkedlist", coq: "KDList", safe: false, mk: func() list { return &wrap[int]{l: doublylinkedlist.New[int](), c: idCodec} }},
+	{name: "doublylinkedlist.Safe", coq: "KDList", safe: true, mk: func() list { return &wrap[int]{l: doublylinkedlist.NewSafe[int](), c: idCodec} }},
+	{name: "singlylinkedlist", coq: "KSList", safe: false, mk: func() list { return &wrap[int]{l: singlylinkedlist.New[int](), c: idCodec} }},
+	{name: "singlylinkedlist.Safe", coq: "KSList", safe: true, mk: func() list { return &wrap[int]{l: singlylinkedlist.NewSafe[int](), c: idCodec} }},
 }
 
 // ---------- stdout capture: os.Stdout is a scratch file, the file offset is read around every call ----------
@@ -182,24 +185,32 @@ func exec(l list, o op) (res string) {
 		return "(RInt " + vhlib.Z(int64(l.Size())) + ")"
 	case "Empty":
 		return "(RBool " + vhlib.Bool(l.Empty()) + ")"
-	case "Gets":
+	case "Gets": // compact form gs_ values oks (Check.v): RGets (combine values oks)
 		n := l.Size()
-		var it []string
+		var vs []int
+		var oks []bool
 		for i := -1; i <= n; i++ {
 			v, ok := l.Get(i)
-			it = append(it, vhlib.Pair(vhlib.Z(int64(v)), vhlib.Bool(ok)))
+			vs = append(vs, v)
+			oks = append(oks, ok)
 		}
-		return "(RGets " + vhlib.List(it) + ")"
+		return "@gs_ " + vhlib.IntList(vs) + " " + tfList(oks)
 	case "IndexOfs":
 		r := make([]int, len(o.Vs))
 		for i, v := range o.Vs {
 			r[i] = l.IndexOf(v)
+		}
+		if sameInts(o.Vs, universe) {
+			return "@ix_ " + vhlib.IntList(r)
 		}
 		return "(RList " + vhlib.IntList(r) + ")"
 	case "ContainsEach":
 		r := make([]bool, len(o.Vs))
 		for i, v := range o.Vs {
 			r[i] = l.Contains(v)
+		}
+		if sameInts(o.Vs, universe) {
+			return "@ce_ " + tfList(r)
 		}
 		return "(RBools " + boolList(r) + ")"
 	default:
@@ -209,6 +220,31 @@ func exec(l list, o op) (res string) {
 }
 
 var universe = []int{0, 1, 2, 3, 4}
+
+func sameInts(a, b []int) bool {
+	if len(a) != len(b) {
+		return false
+	}
+	for i := range a {
+		if a[i] != b[i] {
+			return false
+		}
+	}
+	return true
+}
+
+// T / F are abbreviations of true / false in Check.v
+func tfList(bs []bool) string {
+	it := make([]string, len(bs))
+	for i, b := range bs {
+		if b {
+			it[i] = "T"
+		} else {
+			it[i] = "F"
+		}
+	}
+	return vhlib.List(it)
+}
 
 type caseBuilder struct {
 	k      kind
@@ -234,7 +270,13 @@ func (c *caseBuilder) call(o op, label string) {
 		res = "RPanic"
 		c.dead = true
 	}
-	if bytes == 0 {
+	if strings.HasPrefix(res, "@") { // compact whole-step form; written out when the call also printed something
+		if bytes == 0 {
+			c.steps = append(c.steps, res[1:])
+		} else {
+			c.steps = append(c.steps, fmt.Sprintf("sbc_ (%s) %s", res[1:], vhlib.Nat(int(bytes))))
+		}
+	} else if bytes == 0 {
 		c.steps = append(c.steps, fmt.Sprintf("s_ %s %s", o.coq(), res))
 	} else {
 		c.steps = append(c.steps, fmt.Sprintf("sb_ %s %s %s", o.coq(), res, vhlib.Nat(int(bytes))))
@@ -281,7 +323,41 @@ func (c *caseBuilder) observe(after string) {
 	}
 }
 
+// scribble: a caller overwrites the slice it got from Values(); the list must not notice. No Coq step (the model
+// and the reference ignore it); the usual observers follow.
+func (c *caseBuilder) scribble() {
+	if c.dead {
+		return
+	}
+	c.hist = append(c.hist, "Scribble(Values())")
+	if p, _ := vhlib.Recover(func() { c.l.Scribble() }); p {
+		return
+	}
+	c.observe("Scribble")
+}
+
 func (c *caseBuilder) emit(w *vhlib.Writer, profile string) {
+	if !c.dead { // closing queries: search batches longer than the list, every value present (so with repetitions)
+		var cur []int
+		vhlib.Recover(func() { cur = c.l.Snapshot() })
+		if len(cur) > 0 {
+			c.do(op{K: "Contains", Vs: append(append([]int{}, cur...), cur...)})
+			c.do(op{K: "Contains", Vs: []int{cur[0], cur[len(cur)-1], cur[0]}})
+		} else {
+			c.do(op{K: "Contains", Vs: []int{0, 0}})
+		}
+	}
+	if !c.dead { // aliasing judgement: every slice Values() returned, read again now
+		var now [][]int
+		if p, _ := vhlib.Recover(func() { now = c.l.KeptNow() }); !p {
+			it := make([]string, len(now))
+			for i, s := range now {
+				it[i] = vhlib.IntList(s)
+			}
+			c.steps = append(c.steps, "SKept "+vhlib.List(it))
+			c.labels = append(c.labels, "kept Values() results")
+		}
+	}
 	term := fmt.Sprintf("{| c_kind := %s; c_steps := [%s] |}", c.k.coq, strings.Join(c.steps, ";\n "))
 	w.Case(term, c.k.name+" "+profile, len(c.hist) >= 2 || c.maxLen >= 1, c.labels,
 		map[string]interface{}{"structure": c.k.name, "profile": profile, "calls": c.hist})
@@ -369,6 +445,9 @@ func main() {
 					c := newCase(k)
 					c.fill(r, n)
 					c.do(op{K: "Insert", I: i, Vs: vals(r, b, b >= 3)})
+					if b == 2 {
+						c.scribble()
+					}
 					c.emit(w, "insert-everywhere")
 				}
 			}
@@ -393,6 +472,7 @@ func main() {
 				c.fill(r, n)
 				c.do(op{K: "Get", I: i})
 				c.do(op{K: "Set", I: i, J: r.Intn(4)})
+				c.scribble()
 				c.do(op{K: "Get", I: i})
 				c.do(op{K: "Remove", I: i})
 				c.do(op{K: "Add", Vs: []int{3}}) // a Remove of the last element must leave `last` usable
@@ -435,6 +515,7 @@ func main() {
 				c.do(op{K: "Clear"})
 				c.do(first)
 				c.do(op{K: "Add", Vs: []int{1, 0, 2}})
+				c.scribble()
 				c.do(op{K: "Insert", I: 0, Vs: []int{3}})
 				c.do(op{K: "Insert", I: c.l.Size(), Vs: []int{0, 3}})
 				c.do(op{K: "Insert", I: c.l.Size() - 1, Vs: []int{2}})
@@ -512,7 +593,7 @@ func main() {
 			rec(nil, len(start), depth)
 		}
 	}
-	w.Close(o, "one case = one list (array / doubly / singly linked, plain or Safe wrapper; element type int, and for a share of every stream *T with distinct and shared pointers to equal structs, any holding slices / structs with slices / maps, string - encoded by content class) driven through a call sequence; every call records (result, bytes written to stdout), every mutator is followed by Values, Size, Empty, Get i for i in [-1,size], IndexOf and Contains for each of 0..4 and, for the array list, the backing array; distinct = distinct case terms; non-trivial = at least two calls or a non-empty list reached")
+	w.Close(o, "one case = one list (array / doubly / singly linked, plain or Safe wrapper; element type int, and for a share of every stream *T with distinct and shared pointers to equal structs, any holding slices / structs with slices / maps, string - encoded by content class) driven through a call sequence; every call records (result, bytes written to stdout), a caller scribbling over a Values() result is a step of some traces, every slice returned by Values() is read again at the end of the trace (aliasing judgement), every mutator is followed by Values, Size, Empty, Get i for i in [-1,size], IndexOf and Contains for each of 0..4 and, for the array list, the backing array; distinct = distinct case terms; non-trivial = at least two calls or a non-empty list reached")
 }
 
 func alphabet(n int) []op {
@@ -559,6 +640,9 @@ func walk(c *caseBuilder, r *vhlib.Rng, prof string, thorough bool) {
 				return nil
 			}
 			return vals(r, r.Intn(5), zero)
+		}
+		if r.Chance(1, 10) {
+			c.scribble()
 		}
 		var x int
 		switch prof {
